@@ -386,7 +386,7 @@ def case(ctx, rng, idx, state):
 if __name__ == "__main__":
     harness.main(
         PROP, "exploration", case, setup_fn=setup,
-        tiers=dict(quick=dict(cases=640, shards=8, time=120), thorough=dict(cases=8000, shards=16, time=1000)),
+        tiers=dict(quick=dict(cases=640, shards=8, time=900), thorough=dict(cases=8000, shards=16, time=3000)),
         rule="four families (idx%4): double_spin of random Hermitian models (1-5 WFs, with/without AA); SystemSOC with "
              "alpha_soc=0 / no SOC matrices / alpha_soc!=0 for up/down R sets equal, permuted, nested, overlapping "
              "(cycled), SOC matrices set directly on an up/down/union/own R set or through set_soc_R with a synthetic "
